@@ -764,8 +764,156 @@ def check_flyweight(drv, acc):
     acc.sample({"flyweight_plans": len(plans)}, cap=1)
 
 
+# ---------------------------------------------------------------------------------------------
+# bodies which break the state and THEN raise; constructors / restorers which fail in a class with a finalizer
+
+STATE_SRC = """\
+import gc
+import icontract
+LOG = []
+class Underflow(Exception): pass
+class BaseBoom(BaseException): pass
+def RUN(c):
+    try:
+        while True: c.send(None)
+    except StopIteration as s:
+        return s.value
+def inv(self):
+    LOG.append("inv")
+    return self.n >= 0
+@icontract.invariant(inv)
+class St:
+    def __init__(self, n=0, boom=None):
+        self.n = n
+        if boom is not None:
+            raise boom
+    def pop(self, exc):
+        self.n = -1
+        raise exc
+    def drop(self, exc):
+        del self.n
+        raise exc
+    async def apop(self, exc):
+        self.n = -1
+        raise exc
+    @property
+    def p(self):
+        self.n = -1
+        raise self.exc
+    @p.setter
+    def p(self, exc):
+        self.n = -1
+        raise exc
+    def __setstate__(self, state):
+        self.__dict__.update(state)
+        if "boom" in state:
+            raise state["boom"]
+    def ok(self):
+        return self.n
+class StD(St):
+    # ... with a finalizer (which is a public-looking special method: it runs on half-built objects as well)
+    def __del__(self):
+        pass
+"""
+
+
+def check_state_breaking(acc):
+    import gc
+    import icontract
+    ns = core.load_source(STATE_SRC, "c11st")
+    try:
+        for cls_name in ("St", "StD"):
+            cls = ns[cls_name]
+            for exc_name in ("Underflow", "BaseBoom"):
+                # (1) the body breaks the invariant (or makes it unevaluable) and raises: that very exception reaches the caller
+                for op in ("pop", "drop", "apop", "p.get", "p.set"):
+                    def go():
+                        o = cls(1)
+                        exc = ns[exc_name]("from the body")
+                        o.__dict__["exc"] = exc
+                        try:
+                            if op == "pop":
+                                o.pop(exc)
+                            elif op == "drop":
+                                o.drop(exc)
+                            elif op == "apop":
+                                ns["RUN"](o.apop(exc))
+                            elif op == "p.get":
+                                o.p
+                            else:
+                                o.p = exc
+                            got = None
+                        except BaseException as e:  # noqa
+                            got = e
+                        # afterwards a fresh object is checked as ever
+                        try:
+                            cls(-1)
+                            later = "ret"
+                        except icontract.ViolationError:
+                            later = "ViolationError"
+                        except BaseException as e:  # noqa
+                            later = type(e).__name__
+                        return got is exc, repr(got), later
+                    same, got, later = core.fresh_ctx_run(go)
+                    acc.case(("state_breaking", cls_name, exc_name, op), True, 3, (same, later))
+                    feats = {"call": cls_name + "." + op, "plan": "state_breaking", "kind": exc_name, "at": op}
+                    if not same:
+                        acc.violation(core.Violation(PROP, "fault_replaced", feats, "{}.{}: the body set the object into a state violating the invariant and raised {}; "
+                                                     "the caller got {} instead of that very exception".format(cls_name, op, exc_name, got),
+                                                     spec={"state_breaking": [cls_name, exc_name, op]}, script=STATE_SRC))
+                    elif later != "ViolationError":
+                        acc.violation(core.Violation(PROP, "not_rearmed", feats, "after {}.{} raised {}, constructing {}(-1) gave {} instead of ViolationError".format(
+                            cls_name, op, exc_name, cls_name, later), spec={"state_breaking": [cls_name, exc_name, op]}, script=STATE_SRC))
+                # (2) a constructor / restorer whose body fails: later objects (also at the re-used address) and the same object are checked
+                for how in ("init", "setstate"):
+                    def go2():
+                        verdicts = []
+                        keep = cls(1)
+                        for rnd in range(6):
+                            exc = ns[exc_name]("from the constructor")
+                            try:
+                                if how == "init":
+                                    cls(1, boom=exc)
+                                else:
+                                    keep.__setstate__({"n": 1, "boom": exc})
+                            except BaseException as e:  # noqa
+                                if e is not exc:
+                                    verdicts.append(("other", repr(e)))
+                            del exc
+                            gc.collect()
+                            # fresh objects (one of them is likely to re-use the freed address) and the kept one
+                            fresh = []
+                            for k in range(3):
+                                try:
+                                    fresh.append(cls(-1))
+                                    verdicts.append(("fresh_unchecked", rnd, k))
+                                except icontract.ViolationError:
+                                    pass
+                            keep.n = -1 if False else keep.n
+                            keep.__dict__["n"] = -1
+                            try:
+                                keep.ok()
+                                verdicts.append(("kept_unchecked", rnd))
+                            except icontract.ViolationError:
+                                pass
+                            keep.__dict__["n"] = 1
+                        return verdicts
+                    verdicts = core.fresh_ctx_run(go2)
+                    acc.case(("failed_ctor", cls_name, exc_name, how), True, 6, len(verdicts))
+                    if verdicts:
+                        acc.violation(core.Violation(PROP, "not_rearmed", {"call": cls_name + "." + how, "plan": "failed_constructor", "kind": exc_name, "at": how},
+                                                     "after {} of {} failed in its body with {}: {}".format(how, cls_name, exc_name, verdicts[:4]),
+                                                     spec={"state_breaking": [cls_name, exc_name, how]}, script=STATE_SRC))
+        acc.sample({"state_breaking": True}, cap=1)
+    finally:
+        core.unload_source(ns)
+
+
 def work(chunk):
     acc = core.Acc()
+    if any(item == "state_breaking" for item in chunk):
+        check_state_breaking(acc)
+        chunk = [item for item in chunk if item != "state_breaking"]
     if any(item == "body_differential" for item in chunk):
         check_body_differential(acc)
         chunk = [item for item in chunk if item != "body_differential"]
@@ -797,7 +945,7 @@ def work(chunk):
 
 def run(tier, t0):
     sc = scenarios(tier)
-    items = list(sc) + ["body_differential", "library_endings", "flyweight"] + [("stack_headroom", call) for call in sorted(CALLS)]
+    items = list(sc) + ["body_differential", "library_endings", "flyweight", "state_breaking"] + [("stack_headroom", call) for call in sorted(CALLS)]
     if tier == "thorough":
         # sequences of two faulted calls: the second one faulted at each of its first 6 crossings
         for s in sc:
@@ -813,7 +961,9 @@ def run(tier, t0):
              "(ValueError, TypeError, AttributeError, KeyError, BaseException subclass, KeyboardInterrupt; async: CancelledError raised inside, and throw/cancel/close "
              "at every suspension of a hand-driven coroutine, the closing also from ANOTHER context){}; every call also with each of 1..89 stack "
              "frames of headroom left (RecursionError wherever it strikes, also inside the library; async calls also started with plenty of stack and resumed with 1..89 frames left); construction of a flyweight class checked "
-             "through __new__ faulted at every crossing of its invariant phase while its cache keeps the instance; after each: probe calls of every callable (all true + each "
+             "through __new__ faulted at every crossing of its invariant phase while its cache keeps the instance; bodies (method, async method, property "
+             "getter / setter) which break or delete the state the invariant reads and THEN raise (Exception / BaseException): that very object surfaces; constructors and __setstate__ "
+             "failing in their body, in a class with and without __del__, 6 rounds with fresh objects at re-used addresses; after each: probe calls of every callable (all true + each "
              "condition falsy) in the same context, compared with the pristine-state observations; the surfaced exception must be "
              "or chain the injected one; non-trivial = every case".format(
                  "; plus all pairs (first faulted call ; second call faulted at one of its first 6 crossings, BaseException and Exception alternating) before the probes" if tier == "thorough" else ""),
@@ -831,6 +981,12 @@ def replay(path):
     pristine = pristine_probes(drv)
     if "body_differential" in data:
         check_body_differential(acc)
+        for v in acc.violations[:5]:
+            print("VIOLATION property={} replay={}".format(PROP, path))
+            print(" ", v.symptom, v.detail[:400])
+        return 1 if acc.violations else 0
+    if "state_breaking" in data:
+        check_state_breaking(acc)
         for v in acc.violations[:5]:
             print("VIOLATION property={} replay={}".format(PROP, path))
             print(" ", v.symptom, v.detail[:400])
